@@ -156,6 +156,12 @@ Layout ==
         key_ack |-> P(48, 1), install |-> P(49, 1), key_index |-> P(50, 2), key_t |-> P(52, 1), key_descriptor |-> P(53, 3),
         key_length |-> P(56, 16), replay_counter |-> P(72, 64), nonce |-> A(136, 256), key_iv |-> A(392, 128), rsc |-> A(520, 64),
         id |-> A(584, 64), mic |-> A(648, 128), wpa_length |-> Ln(776, 16)]) @@
+  (* the same frame with Key Data present (libtins then derives the Key Data Length): same header layout *)
+  "RSNEAPOL_key" :> C(99, FALSE, [version |-> P(0, 8), packet_type |-> P(8, 8), length |-> Ln(16, 16), type |-> P(32, 8),
+        encrypted |-> P(43, 1), request |-> P(44, 1), error |-> P(45, 1), secure |-> P(46, 1), key_mic |-> P(47, 1),
+        key_ack |-> P(48, 1), install |-> P(49, 1), key_index |-> P(50, 2), key_t |-> P(52, 1), key_descriptor |-> P(53, 3),
+        key_length |-> P(56, 16), replay_counter |-> P(72, 64), nonce |-> A(136, 256), key_iv |-> A(392, 128), rsc |-> A(520, 64),
+        id |-> A(584, 64), mic |-> A(648, 128), wpa_length |-> Ln(776, 16)]) @@
   (* RFC 3550 5.1 "RTP Fixed Header Fields": V 2, P 1, X 1, CC 4, M 1, PT 7, sequence number 16, timestamp 32, SSRC 32.
      P and CC describe structure (padding octets / CSRC list present) and are computed: kind length *)
   "RTP" :> C(12, TRUE, [version |-> P(0, 2), padding_bit |-> Ln(2, 1), extension_bit |-> P(3, 1), csrc_count |-> Ln(4, 4),
